@@ -186,12 +186,17 @@ def kdf_budget(budget: int):
 
     real = C.KBKDFHMAC
 
-    class Counting(real):  # type: ignore[misc,valid-type]
+    class Counting:
+        """wraps the real KBKDFHMAC (a native class that cannot be subclassed)"""
+
+        def __init__(self, *a, **kw):
+            self._k = real(*a, **kw)
+
         def derive(self, key_material):
             State.kdf_calls += 1
             if State.kdf_calls > State.budget:
                 raise BudgetExceeded("KDF call budget exceeded")
-            return super().derive(key_material)
+            return self._k.derive(key_material)
 
     C.KBKDFHMAC = Counting
     State.kdf_calls, State.budget = 0, budget
